@@ -55,7 +55,7 @@ def call_st(draw, case):
         return {"k": "vars", "v": sel}
     if kind == "pos":
         return {"k": "pred", "spec": {"pos": draw(rs.pos_preds(case["ndim"], case["levelmax"], around_leaf="leaf"))},
-                "allaxes": True}
+                "allaxes": draw(st.booleans())}
     if kind == "level":
         return {"k": "pred", "spec": {"level": draw(rs.level_preds(case["levelmax"]))}}
     if kind == "val":
@@ -106,6 +106,16 @@ def case_st(draw):
                                                                           centred=True)}, "allaxes": True}]))
         calls = calls[:4] + [{"k": "pred", "spec": {"level": {"t": "le", "k": draw(st.integers(1, max(case["levelmax"] - 1, 1)))}}},
                              follow]
+    # position criteria on every axis, then on fewer axes (limits an earlier call derived must not outlive it)
+    if draw(st.integers(0, 9)) < 5:
+        small = {"rel": draw(st.sampled_from([0.3, 0.6, 0.9])), "centred": True, "edge": False, "corner": None}
+        one_axis = draw(st.sampled_from(list("xyz"[: case["ndim"]])))
+        calls = calls[:5] + [{"k": "pred", "spec": {"pos": dict(draw(rs.pos_preds(case["ndim"], case["levelmax"], around_leaf="leaf")),
+                                                                **small)}, "allaxes": True},
+                             # ... then a slab: one axis only, through another leaf
+                             {"k": "pred", "spec": {"pos": dict(draw(rs.pos_preds(case["ndim"], case["levelmax"], around_leaf="leaf")),
+                                                                axes=one_axis, shift=[draw(st.floats(-0.4, 0.4))], **small)},
+                              "allaxes": False}]
     # the same argument objects handed to load() a second time (define the selection once, load again)
     if draw(st.integers(0, 9)) < 5:
         j = draw(st.integers(0, len(calls) - 1))
@@ -143,8 +153,12 @@ def _expected_groups(call, m, has_sink):
     return allg
 
 
+_LAST = {}         # the resolved predicates of the last "pred" call built by _kwargs
+
+
 def _kwargs(call, m, exp_all):
     k = call["k"]
+    _LAST.pop("res", None)
     if k == "plain":
         return dict(_extra_sort(call, m))
     if k == "groups":
@@ -167,6 +181,7 @@ def _kwargs(call, m, exp_all):
     res = rs.resolve(spec, m, exp_all)
     if spec.get("val") and spec["val"].get("none") and res["val"]:
         res["val"] = (res["val"][0], ">", float(np.max(exp_all[res["val"][0]])) * 4.0 + 1.0)      # no cell qualifies
+    _LAST["res"] = res
     sel = {"mesh": rs.build_select(osyris, res, m)}
     if call.get("with_off"):
         sel[call["with_off"]] = False
@@ -233,6 +248,9 @@ def history(case, r):
                 kws.append(kw)
             except Exception as e:
                 raise RuntimeError(f"harness could not build arguments for {call}: {e!r}")
+            if call["k"] == "pred" and call["spec"].get("pos") and not call.get("allaxes") and any(
+                    c["k"] == "pred" and c.get("spec", {}).get("pos") for c in case["calls"][:i]):
+                r.label("position_criteria_on_fewer_axes_after_position_criteria")
             # fresh execution, with argument objects of its own (what load() does to the caller's dicts is not the
             # subject here: the used dataset gets untouched ones)
             try:
@@ -289,6 +307,17 @@ def history(case, r):
                     return
                 if nrows == 0:
                     r.label("empty_mesh_result")
+            if "mesh" in produced and call["k"] == "pred" and _LAST.get("res") is not None and "level" in fresh["mesh"].keys() \
+                    and not _LAST["res"]["level"]:          # (a level criterion truncates the tree: C12's subject)
+                # the reference execution shares the process with the history: state kept in the library itself (a module-level
+                # default that a call narrows) reaches both.  The writer's model says how many cells the predicates select.
+                nq = int(rs.mask(_LAST["res"], m, exp_all).sum())
+                nf = len(fresh["mesh"]["level"].values)
+                if nf != nq:
+                    r.bad(["reference-differs-from-model", "call=" + call["k"]],
+                          f"{where}: a fresh dataset in this process returned {nf} cells, the predicates select {nq} of the cells "
+                          f"written; history {[c['k'] for c in case['calls'][:i + 1]]}")
+                    return
             if "mesh" in produced and int(ds.meta["ncells"]) != int(fresh.meta["ncells"]):
                 r.bad(["meta-ncells", call["k"]], f"{where}: {ds.meta['ncells']} vs fresh {fresh.meta['ncells']}")
                 return
